@@ -17,6 +17,23 @@ def main():
     ap.add_argument("--tier", default=os.environ.get("VERIF_TIER", "quick"), choices=["quick", "thorough"])
     ap.add_argument("--replay")
     a = ap.parse_args()
+    if a.prop in ("C08", "C09"):
+        from . import checks_sched, checks_token
+        import json
+
+        tokname = None
+        if a.replay:
+            tokname = json.load(open(a.replay))["payload"].get("token_scenario")
+        if tokname:
+            from .common import Report
+
+            rep = Report(a.prop, a.tier, "model_checking")
+        else:
+            rep = checks_sched.run(a.prop, a.tier, a.replay, finish=False)
+            if isinstance(rep, int) or a.replay:
+                return rep if isinstance(rep, int) else rep.finish()
+        checks_token.run(rep, a.prop, a.tier, tokname)
+        return rep.finish()
     if a.prop in SCHED:
         from . import checks_sched
 
